@@ -369,3 +369,21 @@ class V2Cert:
     def expected_quote_dict(self):
         rb = dict(self.q_rb_fields)
         return {"header": self.q_hdr, "report_body": rb}
+
+
+def flip_in_signed_or_signature(der, pos, bit):
+    """Flip one bit of an X.509 certificate inside what is signed (the TBS bytes) or inside the
+    signature value. Other octets (outer headers, the outer algorithm identifier, the BIT STRING
+    unused-bits octet) are encoding: some of their alterations leave the certificate's meaning
+    intact, so they are not 'a byte the issuer signed or a signature byte'."""
+    c = x509.load_der_x509_certificate(der)
+    tbs = c.tbs_certificate_bytes
+    t0 = der.index(tbs)
+    sig = c.signature
+    s0 = len(der) - len(sig)
+    assert der[s0:] == sig
+    region = list(range(t0, t0 + len(tbs))) + list(range(s0, len(der)))
+    i = region[pos % len(region)]
+    ba = bytearray(der)
+    ba[i] ^= 1 << (bit % 8)
+    return bytes(ba)
